@@ -323,6 +323,23 @@ pub fn mount_vectors(specs: &J, out: &mut dyn Write, tier: &str, seed: u64) -> J
                 n += 1;
             }
         }
+        // the boot-code area of the master boot record holds what looks like a boot sector of its own (a card that was formatted
+        // whole before it was partitioned: partitioning tools keep the first 440 bytes): the table decides all the same
+        for which in 0..2 {
+            let d = img.dev.snapshot();
+            {
+                let mut st = d.0.borrow_mut();
+                let bs = st.get(lba);
+                let mut m = st.get(0);
+                m[..440].copy_from_slice(&bs[..440]);
+                if which == 1 {
+                    m[0] = 0xE9; // the other jump form
+                    m[2] = 0x00;
+                }
+                st.put(0, &m);
+            }
+            emit(format!("the boot-code area of block 0 holds a copy of the volume boot sector's first 440 bytes (jump form {})", which), d, true, out, &mut n);
+        }
         // the partition at the very end of the 32-bit block range, with a valid boot sector there
         for &far in &[0xFFFF_FFFFu32, 0xFFFF_FFFE, 0xFFFF_FF00, 0x8000_0000] {
             let d = img.dev.snapshot();
